@@ -1,6 +1,6 @@
 // C17 harness: the REAL Spectra::LOBPCGSolver<double>
 //  (a) correspondence: for every cut j = 0..J a fresh solver runs compute(j, tol); its observable state (info, eigenvalues(),
-//      eigenvectors(), residuals(), the private iterate X via SpectraVerifAccess) is printed.  A statement-by-statement shadow of
+//      eigenvectors(), the public member m_evectors (`coef`), residuals(), the private iterate X via SpectraVerifAccess) is printed.  A statement-by-statement shadow of
 //      compute() built from the class's own private methods (orthogonalizeInPlace, removeColumns, checkConvergence_getBlocksize,
 //      sort_epairs, stack_*) runs next to it, must reproduce the real object bit for bit (field `sh=1`), and supplies what cannot
 //      be seen from outside: the kernel outputs (orthonormalised blocks, raw Ritz data of the inner solvers) that are handed to the
@@ -57,6 +57,7 @@ static void shadow_compute(Solver& s, int maxit, double tol_div_n, Trace& tr) {
     using namespace Spectra;
     const int m_n = Acc::n(s), m_nev = Acc::nev(s);
     Sp& X = Acc::X(s); Sp& A = Acc::A(s); Sp& m_B = Acc::B(s);
+    s.m_info = Eigen::NoConvergence;
     double tolerance_L2 = tol_div_n * m_n;
     int BlockSize;
     int max_iter = std::min(m_n, maxit);
@@ -110,7 +111,9 @@ static void shadow_compute(Solver& s, int maxit, double tol_div_n, Trace& tr) {
         DenseSymMatProd<double> Aop(gramA);
         DenseCholesky<double> Bop(gramB);
         try {
-            SymGEigsSolver<DenseSymMatProd<double>, DenseCholesky<double>, GEigsMode::Cholesky> geigs(Aop, Bop, m_nev, (std::min)(10, int(gramA.rows()) - 1));
+            int ncv = (std::min)(10, int(gramA.rows()) - 1);
+            if (ncv <= m_nev) ncv = (std::min)(int(gramA.rows()), 2 * m_nev);
+            SymGEigsSolver<DenseSymMatProd<double>, DenseCholesky<double>, GEigsMode::Cholesky> geigs(Aop, Bop, m_nev, ncv);
             geigs.init();
             geigs.compute(SortRule::SmallestAlge);
             if (geigs.info() == CompInfo::Successful) {
@@ -182,7 +185,7 @@ static Case gen_case(Rng& g, bool thorough, int idx) {
     return c;
 }
 
-struct Obs { bool threw = false; std::string what; int info = -1; Vec evals; Mat evecs, resid, X; };
+struct Obs { bool threw = false; std::string what; int info = -1; Vec evals; Mat evecs, coef, resid, X; };
 static Solver* make(const Case& c) {
     Sp As = c.A.sparseView(), Xs = c.X0.sparseView();
     Solver* s = new Solver(As, Xs);
@@ -190,7 +193,7 @@ static Solver* make(const Case& c) {
     if (c.withT) { Sp Ts = c.T.sparseView(); s->setPreconditioner(Ts); }
     return s;
 }
-static Obs observe(Solver& s) { Obs o; o.info = s.info(); o.evals = s.eigenvalues(); o.evecs = s.eigenvectors(); o.resid = s.residuals(); o.X = Mat(Acc::X(s)); return o; }
+static Obs observe(Solver& s) { Obs o; o.info = s.info(); o.evals = s.eigenvalues(); o.evecs = s.eigenvectors(); o.coef = s.m_evectors; o.resid = s.residuals(); o.X = Mat(Acc::X(s)); return o; }
 static Obs run_real(const Case& c, int maxit, double tol) {
     std::unique_ptr<Solver> s(make(c)); bool threw = false; std::string what;
     try { s->compute(maxit, tol); } catch (std::exception& e) { threw = true; what = e.what(); }
@@ -202,7 +205,7 @@ static bool same_bits(const Mat& a, const Mat& b) {
     return true;
 }
 static bool same_obs(const Obs& a, const Obs& b) {
-    return a.threw == b.threw && a.info == b.info && same_bits(a.evals, b.evals) && same_bits(a.evecs, b.evecs) && same_bits(a.resid, b.resid) && same_bits(a.X, b.X);
+    return a.threw == b.threw && a.info == b.info && same_bits(a.evals, b.evals) && same_bits(a.evecs, b.evecs) && same_bits(a.coef, b.coef) && same_bits(a.resid, b.resid) && same_bits(a.X, b.X);
 }
 
 static std::string case_json(const Case& c, int maxit, const std::string& extra = "") {
@@ -294,7 +297,9 @@ static void oracle(const Case& c, int maxit, Out& out) {
                      case_json(c, maxit, ",\"accessor\":\"eigenvectors\",\"pred\":\"shape\""));
         else {
             LMat E = o.evecs.cast<long double>(); long double e = maxabs(E.transpose() * B * E - LMat::Identity(k, k));
-            if (!(e <= 1e-8L)) out.fail("eigenvectors-not-B-orthonormal", "eigenvectors(): max|E'BE - I| = " + str((double) e), case_json(c, maxit, ",\"accessor\":\"eigenvectors\",\"pred\":\"ebe\""));
+            int dece = e > 0 ? (int) std::floor(std::log10((double) e)) : -99;   // graded like the internal X (same matrix since the repair of F10)
+            if (!(e <= 1e-4L)) out.fail("eigenvectors-far-from-B-orthonormal", "eigenvectors(): max|E'BE - I| = " + str((double) e), case_json(c, maxit, ",\"accessor\":\"eigenvectors\",\"pred\":\"ebe-gross\""));
+            else if (!(e <= 1e-8L)) out.fail("eigenvectors-not-B-orthonormal", "eigenvectors(): max|E'BE - I| = " + str((double) e), case_json(c, maxit, ",\"accessor\":\"eigenvectors\",\"pred\":\"ebe\",\"decade\":" + str(dece)));
         }
         // (e) residuals() = A X - B X diag(theta) for the internal X: max abs error <= 1e-9 (|A| + |theta| |B|) |X|
         if (o.resid.rows() == n && o.resid.cols() == k && X.rows() == n && X.cols() == k) {
@@ -353,7 +358,7 @@ static void corr_case(const Case& c, Out& out) {
         int done = 0; for (auto& r : tr.it) if (r.completed) done++;
         a << "threw=" << (real.threw ? 1 : 0) << " info=" << real.info << " iters=" << done << " dels=";
         for (auto& r : tr.it) { a << "["; for (size_t i = 0; i < r.del.size(); i++) a << (i ? "," : "") << r.del[i]; a << "]"; }
-        put_shape(a, "evals", real.evals); put_shape(a, "evecs", real.evecs); put_shape(a, "resid", real.resid); put_shape(a, "X", real.X);
+        put_shape(a, "evals", real.evals); put_shape(a, "evecs", real.evecs); put_shape(a, "coef", real.coef); put_shape(a, "resid", real.resid); put_shape(a, "X", real.X);
         a << " sh=" << (eq ? 1 : 0);
         out.corr(q.str(), a.str());
         out.count("cuts");
